@@ -27,6 +27,8 @@ class L1(BasePenalty):
 
     def value(self, w):
         """Compute L1 penalty value."""
+        if self.positive and np.any(w < 0):
+            return np.inf
         return self.alpha * np.sum(np.abs(w))
 
     def prox_1d(self, value, stepsize, j):
@@ -89,6 +91,8 @@ class L1_plus_L2(BasePenalty):
 
     def value(self, w):
         """Compute the L1 + L2 penalty value."""
+        if self.positive and np.any(w < 0):
+            return np.inf
         value = self.l1_ratio * self.alpha * np.sum(np.abs(w))
         value += (1 - self.l1_ratio) * self.alpha / 2 * np.sum(w ** 2)
         return value
@@ -163,6 +167,8 @@ class WeightedL1(BasePenalty):
 
     def value(self, w):
         """Compute the weighted L1 penalty."""
+        if self.positive and np.any(w < 0):
+            return np.inf
         return self.alpha * np.sum(np.abs(w) * self.weights)
 
     def prox_1d(self, value, stepsize, j):
@@ -242,6 +248,8 @@ class MCPenalty(BasePenalty):
                     positive=self.positive)
 
     def value(self, w):
+        if self.positive and np.any(w < 0):
+            return np.inf
         return value_MCP(w, self.alpha, self.gamma)
 
     def prox_1d(self, value, stepsize, j):
@@ -319,6 +327,8 @@ class WeightedMCPenalty(BasePenalty):
                     positive=self.positive)
 
     def value(self, w):
+        if self.positive and np.any(w < 0):
+            return np.inf
         return value_weighted_MCP(w, self.alpha, self.gamma, self.weights)
 
     def prox_1d(self, value, stepsize, j):
